@@ -54,12 +54,13 @@ RULE = (
     '0-8 explicit spikes [position, 24-bit mantissa, exponent], plus a second '
     'vector and dyadic scalars for linearity. Rotation: array shapes of total '
     'size >= 1 from a menu (0-d, (1,), (1,1), (3,), (2,3), (5,1,2), sizes '
-    '2^k-1, 2^k, 2^k+1 up to 2^12+1 quick / 2^14+1 thorough, multi-dimensional '
+    '2^k-1, 2^k, 2^k+1 up to 2^12+1 quick / 2^14+1 thorough (26 shapes quick, 60 thorough: '
+    'every new shape costs ~1 s of XLA compiles per shard process), multi-dimensional '
     'shapes of non-power-of-two size) or free shapes with 1-4 dimensions, '
     'numpy / jax / numpy-scalar containers, two 64-bit raw keys, and trees '
-    '(dict / nested dict / list / tuple / bare leaf / empty) of 0-5 such '
-    'leaves. Non-trivial: transform cases with more than one Kronecker factor '
-    '(p >= s+1) and an explicitly passed block size; rotation cases containing '
+    '(dict / nested dict / list / tuple / mixed / bare leaf / empty) of 0-6 such '
+    'leaves. Non-trivial: transform cases with more than one (and at most 8) '
+    'Kronecker factors (p >= s+1) and an explicitly passed block size; rotation cases containing '
     'a leaf with >= 2 dimensions whose size is not a power of two. '
     'distinct = distinct canonical case JSON.')
 ASSUMPTIONS = [
@@ -651,7 +652,8 @@ def transform_labels(case):
 
 
 def transform_nontrivial(case, ls):
-  return case['p'] >= case['s'] + 1 and not case['call'].startswith('default')
+  return (case['p'] >= case['s'] + 1 and not case['call'].startswith('default') and
+          n_factors(case['p'], case['s']) <= 8)
 
 
 def leaf_labels(leaf):
@@ -801,13 +803,14 @@ def linear_strategy(draw, tier):
 
 
 SHAPES_QUICK = [
-    [], [1], [1, 1], [2], [3], [2, 3], [5, 1, 2], [7], [1, 7], [8], [3, 3], [4, 4],
-    [17], [5, 7], [32], [33], [3, 11], [63], [5, 13], [2, 3, 4, 5], [127],
-    [128], [129], [10, 13], [257], [3, 5, 17], [16, 16], [511], [23, 45],
-    [1025], [5, 5, 41], [2047], [4096], [4097], [64, 65]]
+    [], [1], [1, 1], [2], [3], [2, 3], [5, 1, 2], [7], [1, 7], [8], [4, 4], [5, 7], [33],
+    [3, 11], [63], [2, 3, 4, 5], [128], [129], [10, 13], [3, 5, 17], [23, 45], [1025],
+    [5, 5, 41], [4096], [4097], [64, 65]]
 SHAPES_THOROUGH = SHAPES_QUICK + [
-    [9], [31], [65], [255], [513], [1023], [2049], [4095], [64], [256], [512], [1024], [2048], [8191], [8192], [8193], [16383], [16384], [16385],
-    [128, 129], [3, 43, 127], [1, 1, 1, 1], [2, 2, 2, 2], [100, 100], [7, 11, 13, 2]]
+    [3, 3], [9], [17], [31], [32], [5, 13], [65], [127], [255], [257], [16, 16], [511], [513],
+    [1023], [2047], [2049], [4095], [64], [256], [512], [1024], [2048], [8191], [8192], [8193],
+    [16383], [16384], [16385], [128, 129], [3, 43, 127], [1, 1, 1, 1], [2, 2, 2, 2],
+    [100, 100], [7, 11, 13, 2]]
 LEAF_SHAPES = [[], [1], [1, 1], [3], [2, 3], [5, 1, 2], [7], [4, 4], [5, 7], [33], [3, 11],
                [10, 13], [128], [129], [23, 45], [1025]]
 
@@ -832,7 +835,7 @@ def _is_nt_shape(shape):
 
 @st.composite
 def leaf_strategy(draw, shapes, free_dim_max):
-  if free_dim_max and draw(st.integers(0, 11)) == 0:
+  if free_dim_max and draw(st.integers(0, 15)) == 0:
     shape = draw(st.lists(st.integers(1, free_dim_max), min_size=1, max_size=4))
   else:
     shape = list(draw(st.one_of(st.sampled_from(shapes),
@@ -893,7 +896,7 @@ CHECKS = [
               '>= 9 Kronecker factors must raise the documented ValueError'),
     Check(name='transform_vs_dense', run=run_transform, strategy=transform_strategy,
           labels=transform_labels, nontrivial=transform_nontrivial,
-          budget={'quick': 1600, 'thorough': 40000}, time_share=1.5,
+          budget={'quick': 2000, 'thorough': 40000}, time_share=1.5,
           doc='generated (p, s, call style, dtype, input container, vector): output equals '
               'scipy.linalg.hadamard(n) @ x (bit-exact in the exact class, rigorous rounding '
               'bound otherwise), shape and dtype kept, input untouched'),
@@ -903,7 +906,7 @@ CHECKS = [
           doc='T(a x + b y) = a T(x) + b T(y) for dyadic scalars; T(T(x)) = n x'),
     Check(name='rotation_roundtrip', run=run_rotation, strategy=rotation_strategy,
           labels=rotation_labels, nontrivial=rotation_nontrivial,
-          budget={'quick': 1000, 'thorough': 30000}, time_share=3.0,
+          budget={'quick': 1200, 'thorough': 30000}, time_share=3.0,
           doc='structured_rotation / inverse_structured_rotation on one array of any shape: '
               'recorded shape, norm, R(x) = H D pad(x)/sqrt(d) for a sign diagonal D, inverse '
               'restores values and shape, same key deterministic, R(2x) = 2R(x), different '
